@@ -157,8 +157,13 @@ impl<'r> Gen<'r> {
         self.rng.below(self.cfg.nsym as u64) as u8
     }
     fn symset(&mut self) -> Vec<u8> {
-        // mostly small sets; now and then one that covers most of the alphabet (duplicates included)
-        let n = if self.rng.chance(1, 6) { self.rng.range(self.cfg.nsym as u64 / 2, self.cfg.nsym as u64 + 4) } else { self.rng.range(1, (self.cfg.nsym as u64).min(4)) };
+        // mostly small sets; now and then a big one that covers most of the alphabet, listed with
+        // duplicates and unsorted (as hand-written "all the characters that ..." strings are)
+        if self.rng.chance(1, 6) {
+            let n = self.rng.range(self.cfg.nsym as u64, 2 * self.cfg.nsym as u64 + 8);
+            return (0..n).map(|_| self.sym()).collect();
+        }
+        let n = self.rng.range(1, (self.cfg.nsym as u64).min(4));
         let mut v: Vec<u8> = (0..n).map(|_| self.sym()).collect();
         v.sort();
         v.dedup();
